@@ -8,6 +8,7 @@ let () =
     | "clock" -> L_clock.run
     | "history" -> L_history.run
     | "pl" -> L_pl.run
+    | "tok" -> L_tok.run
     | _ -> prerr_endline "usage: vmodel <codec>"; exit 2 in
   try
     while true do
